@@ -1,4 +1,4 @@
-CONSTANTS TS = {7,9,10,11,13}  Vs = {"i1","f","s","m"}  Durs = {2,3}  Caps = {1,2}  MaxEv = 2  MaxOps = 2
+CONSTANTS TS = {7,9,10,11,13}  Vs = {"i1","f","s","m"}  Durs = {2,3}  Caps = {1,2}  MaxEv = 2  Machines <- AllMachines  MaxOps = 2
 INIT Init
 NEXT Next
 CONSTRAINT Bound
